@@ -79,8 +79,13 @@ const header = "From Coq Require Import List String.\nImport ListNotations.\nOpe
 
 func main() {
 	fn := flag.String("fn", "rc_failures", "Coq failure function to apply")
+	imp := flag.String("import", "", "extra Coq modules (under Mv) to import, space separated, e.g. Harness.C06H")
 	cfg := hx.Parse()
-	w := hx.NewWriter(cfg, header, "rcase", *fn, 250)
+	hdr := header
+	if *imp != "" {
+		hdr += "\nFrom Mv Require Import " + *imp + "."
+	}
+	w := hx.NewWriter(cfg, hdr, "rcase", *fn, 250)
 	w.Rule = "a case = (mode, ancestor, alpha, beta, plan returned by core.Reconcile); distinct = distinct Coq terms; non-trivial = the plan contains at least one alpha/beta change or conflict"
 	add := func(c Case, origin string) {
 		if w.Aborted {
